@@ -10,7 +10,7 @@
 From Coq Require Import List NArith ZArith Bool.
 From LTV Require Import Common.Bytes.
 From LTV.C07 Require Import Model.
-From LTV.C08 Require Import Model ProofsOrder ProofsLoad ProofsTotal ProofsTok ProofsB32 ProofsDecode ProofsTrace ProofsMain.
+From LTV.C08 Require Import Model ProofsOrder ProofsLoad ProofsTotal ProofsTok ProofsB32 ProofsDecode ProofsTrace ProofsOpen ProofsMain.
 Import ListNotations.
 Local Open Scope N_scope.
 
@@ -54,6 +54,13 @@ Theorem frozen_tokens : forall (H : bytes -> bytes) pol b u d root f,
   mem_byte 0 (path_as_string (f_path f)) = false.
 Proof. exact ProofsMain.frozen_tokens. Qed.
 Print Assumptions frozen_tokens.
+
+(* open / re-open under any root: never a storage error, frozen paths recomputed from the current root *)
+Theorem open_paths_ok : forall (H : bytes -> bytes) pol b u d root,
+  load H pol b u = LOk d -> mem_byte 0 (set_root_dir root) = false ->
+  open_paths root d = LOk (map (fr (set_root_dir root)) (filter nonpad (d_files d))).
+Proof. exact ProofsMain.open_paths_ok. Qed.
+Print Assumptions open_paths_ok.
 
 Theorem no_dup_no_prefix : forall (H : bytes -> bytes) pol b u d,
   load H pol b u = LOk d -> no_prefix (map f_path (d_files d)).
